@@ -102,17 +102,31 @@ MODELLED = {
 
 
 def main(generators, modelled=None):
+    """extract.py [--only Dr.v,Regs.v]: regenerate all Gen files, or only the named ones (a property's check runs only the
+    generators its own theorems depend on, so that a shape change in an unrelated part of the source does not alarm it)."""
     modelled = modelled or MODELLED
+    only = None
+    if "--only" in sys.argv:
+        only = set(x for x in sys.argv[sys.argv.index("--only") + 1].split(",") if x)
+        generators = [g for g in generators if g.output in only]
+    failed = []
     try:
         hashes = {}
         for pid, items in modelled.items():
             hashes[pid] = {}
             for rel, name, nth in items:
                 hashes[pid]["%s::%s#%d" % (rel, name, nth)] = norm_hash(fn_body(read(rel), name, nth))
-        for g in generators:
-            name, content = g()
-            write_if_changed(os.path.join(GEN, name), content)
         write_if_changed(os.path.join(ROOT, "gen", "body_hashes.json"), json.dumps(hashes, indent=1, sort_keys=True))
     except Shape as e:
-        print("translator: source shape changed: %s" % e)
+        if only is None:
+            failed.append("body hashes: %s" % e)
+    for g in generators:
+        try:
+            name, content = g()
+            write_if_changed(os.path.join(GEN, name), content)
+        except Shape as e:
+            failed.append("%s: %s" % (g.output, e))
+    if failed:
+        for f in failed:
+            print("translator: source shape changed: %s" % f)
         sys.exit(1)
